@@ -66,6 +66,26 @@ theorem Spaced.sorted {prev : Int} {l : List (Int × Int)} (h : Spaced prev l) (
     · have := (List.pairwise_cons.mp hr).1 x hx
       omega
 
+/-- …hence *any* two admitted requests (not only consecutive ones) are at least the later one's interval apart -/
+theorem Spaced.pairwise {prev : Int} {l : List (Int × Int)} (h : Spaced prev l) (hiv : ∀ e ∈ l, 0 ≤ e.2) :
+    List.Pairwise (fun a b => a.1 + b.2 ≤ b.1) ((prev, 0) :: l) := by
+  induction l generalizing prev with
+  | nil => simp
+  | cons e r ih =>
+    obtain ⟨p, iv⟩ := e
+    obtain ⟨h1, h2⟩ := h
+    have hr := ih h2 (fun e he => hiv e (List.mem_cons_of_mem _ he))
+    have h0 : 0 ≤ iv := hiv (p, iv) (List.mem_cons_self ..)
+    rw [List.pairwise_cons] at hr ⊢
+    refine ⟨?_, List.pairwise_cons.mpr hr⟩
+    intro b hb
+    rw [List.mem_cons] at hb
+    rcases hb with rfl | hb
+    · exact h1
+    · have := hr.1 b hb
+      simp only at this ⊢
+      omega
+
 /-- **No banked burst**: `k` admitted requests span at least the sum of the intervals of all but the first —
     whatever the state before (`prev` may lie arbitrarily far in the past: an idle gap earns nothing). -/
 theorem Spaced.span {prev : Int} {l : List (Int × Int)} (h : Spaced prev l) :
@@ -240,6 +260,21 @@ theorem solo_eq_doCheck (maxQ last now : Int) (q : Req) :
     · have h3 : ¬ now < last + iv - maxQ := by omega
       have h4 : last + iv - now > 0 := by omega
       simp [Cfg.start, Cfg.runSched, Cfg.round, Cfg.run, Cfg.sched, Th.init, Th.isDone, Th.isRb, Cfg.results, stepTh, List.range, List.range.loop, h1, h2]
+
+/-- …and a caller that runs alone is never inside a classified region -/
+theorem solo_clean (maxQ last now : Int) (q : Req) :
+    ((Cfg.start maxQ last [(now, q)]).runSched []).rb = false ∧
+    ((Cfg.start maxQ last [(now, q)]).runSched []).stale = false := by
+  cases q with
+  | zero => simp [Cfg.start, Cfg.runSched, Cfg.round, Cfg.run, Cfg.sched, Th.init, Th.isDone, List.range, List.range.loop]
+  | excess => simp [Cfg.start, Cfg.runSched, Cfg.round, Cfg.run, Cfg.sched, Th.init, Th.isDone, List.range, List.range.loop]
+  | norm iv =>
+    by_cases h1 : last + iv ≤ now
+    · simp [Cfg.start, Cfg.runSched, Cfg.round, Cfg.run, Cfg.sched, Th.init, Th.isDone, Th.isRb, rbCount, stepTh, List.range, List.range.loop, h1]
+    · by_cases h2 : last + iv - now > maxQ
+      · simp [Cfg.start, Cfg.runSched, Cfg.round, Cfg.run, Cfg.sched, Th.init, Th.isDone, Th.isRb, rbCount, stepTh, List.range, List.range.loop, h1, h2]
+      · have h3 : ¬ last + iv < now := by omega
+        simp [Cfg.start, Cfg.runSched, Cfg.round, Cfg.run, Cfg.sched, Th.init, Th.isDone, Th.isRb, rbCount, stepTh, List.range, List.range.loop, h1, h2, h3]
 
 /-! ## the two known findings: the model (as the code) violates spacing under these schedules -/
 
